@@ -130,9 +130,42 @@ def construct_nested(env, kind, kw):
 SKIP = object()
 
 
+class St(dict):
+    """model state: every successful write / deletion of an attribute resets the attributes
+    declared invalidated_by it (transitively), as documented for Attr(invalidated_by=...)"""
+
+    def __init__(self, d, env, rec):
+        super().__init__(d)
+        self.env, self.rec = env, rec
+        self.inv = rec.get("opts", {}).get("invalidated_by", {})
+
+    def _invalidate(self, n, seen=()):
+        for d, deps in self.inv.items():
+            if (n in deps or "*" in deps) and d != n and d not in seen:
+                a = attr_by_name(self.rec, d)
+                dv = default_of(self.env, self.rec, a)
+                if dv is MISS:
+                    had = d in self
+                    dict.pop(self, d, None)
+                else:
+                    dict.__setitem__(self, d, PREP(self.env, self.rec, a, dv))
+                self._invalidate(d, seen + (n,))
+
+    def __setitem__(self, n, v):
+        dict.__setitem__(self, n, v)
+        self._invalidate(n)
+
+    def pop(self, n, *a):
+        had = n in self
+        r = dict.pop(self, n, *a)
+        if had:
+            self._invalidate(n)
+        return r
+
+
 def ref_apply(env, rec, state, op):
     """state: {attr: value(deep copy)}; returns new state dict, or SKIP (undocumented form)"""
-    st = dict(state)
+    st = St(state, env, rec)
     kind = op["op"]
     names = [G.attr_name(a) for a in rec["attrs"]]
     if kind == "set":
@@ -173,6 +206,8 @@ def ref_apply(env, rec, state, op):
                 st[n] = PREP(env, rec, a, d)
         return st
     if m == "update":
+        if args:
+            return SKIP  # a complete replacement instance together with keywords: undocumented combination
         for n, v in kw.items():
             if v is MISSING:
                 continue
